@@ -981,3 +981,32 @@ def lark_sentinel_position(eng, rep, rule: str, modules: Iterable[str]) -> int:
                 rep.violation(rule, f.file, f.qual, site, "'%s' can be lark's UnexpectedEOF, whose line and column are the sentinel -1; they are turned into a position without any test, so a truncated file is reported at line -1 (and showing that line fails or shows an unrelated one)" % v)
     rep.ok(rule, "-", "-", "positions read from lark exceptions that may be UnexpectedEOF", "%d judged" % n)
     return n
+
+
+def wraparound_off_by_one(eng, rep, rule: str, dirs: Iterable[str]) -> int:
+    """(UINT32_MAX - a) + b written for the distance from a to b across a counter wrap: the modular distance is
+    (UINT32_MAX - a) + 1 + b (the step from the maximum to 0 counts), so the expression is one short"""
+    import os
+    import re
+    n = 0
+    pat = re.compile(r"\(\s*(UINT(?:8|16|32|64)_MAX|0[xX][fF]{2,16}[uUlL]*)\s*-\s*([A-Za-z_]\w*)\s*\)\s*\+\s*([^;\n]+);")
+    for d in dirs:
+        dd = os.path.join(eng.root, d)
+        if not os.path.isdir(dd):
+            continue
+        for fn in sorted(os.listdir(dd)):
+            if not fn.endswith((".h", ".c", ".jinja", ".j2", ".cpp", ".hpp")):
+                continue
+            src = open(os.path.join(dd, fn), encoding="utf-8", errors="replace").read()
+            for m in pat.finditer(src):
+                n += 1
+                rest = m.group(3)
+                line = src.count("\n", 0, m.start()) + 1
+                site = "%s (line %d)" % (" ".join(m.group(0).split())[:70], line)
+                plus_one = re.search(r"(^|\+)\s*1[uUlL]*\s*(\+|$)", rest.strip())
+                if plus_one:
+                    rep.ok(rule, os.path.join(d, fn), "-", site, "the step from the maximum to 0 is counted")
+                else:
+                    rep.violation(rule, os.path.join(d, fn), "-", site, "the distance across a wrap of the counter is (%s - %s) + 1 + ...: without the + 1 the elapsed time after a timer wrap is one tick short, so a message that is exactly due is held back (or the same-tick guard misfires)" % (m.group(1), m.group(2)))
+    rep.ok(rule, "-", "-", "hand-written wrap-around distances", "%d judged" % n)
+    return n
